@@ -286,18 +286,24 @@ T_TimerFire == /\ IsEvent("timer_fire")
                   /\ TimerFire(i) /\ UNCHANGED <<cur, yl>>
 
 \* a Default value is constructed: recreate-from-default during a restart, or the registry spawning a service
+\* (DefaultSpawnable::spawn_default: the library makes the value inside the client's spawn call)
+SpawningDefault(c) == /\ c \in Client
+                      /\ \/ (pend[c] # NoOp /\ pend[c].op = "spawn" /\ E.inst = hst.ninst + 1)
+                         \/ (pend[c] = NoOp /\ cli[c].stage = "idle" /\ cli[c].op = "spawn" /\ E.inst = hst.ninst)
 T_DefaultNew == /\ IsEvent("default_new")
-                /\ G("dn.inst", E.inst = hst.ninst + 1)
-                /\ IF E.task \in Actor
-                   THEN /\ G("dn.recreate", act[E.task].pc = "rs_mid" /\ act[E.task].strat = "recreate")
-                        /\ UNCHANGED vars
-                   ELSE LET c == E.task IN
-                        /\ G("dn.cur", cur = c /\ ~yl /\ cli[c].stage = "reglock" /\ cli[c].op \in {"from_registry", "setup"})
-                        /\ G("dn.lock", RegLockFree(c))
-                        /\ G("dn.type", cli[c].arg.ty = E.ty)
-                        \* the registry spawns only when no live instance is registered
-                        /\ G("dn.miss", ~(E.ty \in DOMAIN reg.ent /\ SvcRunning(reg.ent[E.ty])))
-                        /\ RunCont(c)
+                /\ IF SpawningDefault(E.task)
+                   THEN G("dn.cur", cur = E.task) /\ UNCHANGED vars
+                   ELSE /\ G("dn.inst", E.inst = hst.ninst + 1)
+                        /\ IF E.task \in Actor
+                           THEN /\ G("dn.recreate", act[E.task].pc = "rs_mid" /\ act[E.task].strat = "recreate")
+                                /\ UNCHANGED vars
+                           ELSE LET c == E.task IN
+                                /\ G("dn.cur", cur = c /\ ~yl /\ cli[c].stage = "reglock" /\ cli[c].op \in {"from_registry", "setup"})
+                                /\ G("dn.lock", RegLockFree(c))
+                                /\ G("dn.type", cli[c].arg.ty = E.ty)
+                                \* the registry spawns only when no live instance is registered
+                                /\ G("dn.miss", ~(E.ty \in DOMAIN reg.ent /\ SvcRunning(reg.ent[E.ty])))
+                                /\ RunCont(c)
 
 Alive == {a \in Actor : act[a].pc \notin {"unborn", "done", "failed"}} \cup {i \in DOMAIN tmr : tmr[i].st \notin {"ended"}}
 SeqSet(s) == {s[i] : i \in 1..Len(s)}
